@@ -69,9 +69,10 @@ type accHist struct {
 }
 
 type ownerRec struct {
-	tid  int
-	base interface{} // keeps the object alive (no address reuse within an execution)
-	site string
+	tid   int
+	clock int         // the owner's own clock component at its last access
+	base  interface{} // keeps the object alive (no address reuse within an execution)
+	site  string
 }
 
 type lockState struct {
@@ -223,11 +224,14 @@ func (s *Sched) record(t *thread, site string, accs []Acc, sched bool) {
 			if !s.cfg.AlwaysShared[typ] && !s.cfg.Promoted[typ] {
 				// supposedly thread-local object: only track which thread owns it
 				o, seen := s.owner[ptr]
-				if !seen {
-					s.owner[ptr] = ownerRec{t.id, a.Base, site}
+				if !seen || o.tid == t.id {
+					s.owner[ptr] = ownerRec{t.id, t.vc[t.id], a.Base, site}
 					continue
 				}
-				if o.tid == t.id {
+				if o.clock <= t.vc[o.tid] {
+					// every access of the previous owner happens-before this one (the object was
+					// handed over, e.g. through the pool): ownership moves, nothing is shared
+					s.owner[ptr] = ownerRec{t.id, t.vc[t.id], a.Base, site}
 					continue
 				}
 				// a second thread touches it: promote the type and both sites; the scenario is
